@@ -87,21 +87,22 @@ claim("C16", "other", "site-discipline analysis over callee-resolved dev-profile
 
 # added while building (DESIGN.md §9.3): appended to the level texts above
 ADDED = {
-    "C01": " Also decided: recognition (each of the 114 mnemonics, 64 register spellings, the pointer names and the four addressing forms is matched with the grammar under PEG semantics and must map, through the strum from_str tables read from MIR, to the enum value the encoder row is keyed on) and glue (parsed mnemonic and operands -> Instruction item unchanged; encoder bytes -> fragment -> code -> BuildResult.code as a def-use chain). The reduced core is a second view of every row: on paths that may run with Avr8l set, r16..r31 must all be accepted; the devices whose shipped part file declares that core carry the flag.",
+    "C15": " Also decided: a malformed line of the chain being skipped (.else/.elif/.endif/.endmacro) is handed to the line parser; running out of text in search of a closing line is an error. Known findings: .byte operand, order of messages from macro bodies.",
+    "C01": " Also decided: recognition (each of the 114 mnemonics, 64 register spellings, the pointer names and the four addressing forms is matched with the grammar under PEG semantics and must map, through the strum from_str tables read from MIR, to the enum value the encoder row is keyed on) and glue (parsed mnemonic and operands -> Instruction item unchanged; encoder bytes -> fragment -> code -> BuildResult.code as a def-use chain). The reduced core is a second view of every row: on paths that may run with Avr8l set, r16..r31 must all be accepted; the devices whose shipped part file declares that core carry the flag. An operand written with pc is encoded from the address of its own instruction (C03's rule under C01's keys).",
     "C02": " Also decided: .org/.byte never drop an operand silently (one recorded known finding), the exact effect of the segment directives on the segment list (an .org just stored survives), and that segments opened while splicing a macro expansion carry the expanded segment's own address and type. A start address stays with the memory it was given in when a segment directive follows; the first segment of a macro expansion is compared with what the expansion was seeded with. Known findings: .byte operand, .org 0 taken for none.",
-    "C03": " Findings about the displacement term are required on every success path (a term adjusted on the way is reported); the pc rule is stated per round of the item loop; a target named like a register (r16_loop) is matched as the symbol it is.",
+    "C03": " Findings about the displacement term are required on every success path (a term adjusted on the way is reported); the pc rule is stated per round of the item loop; a target named like a register (r16_loop) is matched as the symbol it is. The value of the label a branch names: pass 1 counts every instruction as long as pass 2 makes it (C02's rules under C03's keys).",
     "C04": " Also decided: the language of the grammar's register rules is exactly the register names (r0..r31, x/y/z, either case); on a reduced core (paths that may run with Avr8l set) every register operand accepts r16..r31 only.",
-    "C05": " Known findings: .byte operand, evaluation depth below the line guard. Also decided: strict evaluation (a value only after every operand evaluated), a bound identifier fails only through its definition or the nesting limit, character constants are not narrowed in the compiled action, an operand that is a symbol named like a register (r1x, -zero) is matched as that symbol.",
+    "C05": " Known findings: .byte operand, evaluation depth below the line guard. Also decided: strict evaluation (a value only after every operand evaluated), a bound identifier fails only through its definition or the nesting limit, character constants are not narrowed in the compiled action, an operand that is a symbol named like a register (r1x, -zero) is matched as that symbol. An expression handed to a macro is written out and parsed again as the same expression (C09's printer rule under C05's keys).",
     "C06": " Also decided: the length model Operand::len equals the bytes emitted; the fragment pass 2 returns is only ever appended to; a character constant operand keeps its full code point.",
-    "C07": " Also decided: completeness (every chunk taken from the image becomes a Data record on every path) and that the writers, seen as a family with their local helpers, create or truncate the file they write. Every write to an output file takes its bytes from the generated records.",
-    "C08": " A branch of skip on the text of a line through anything but the line parser is treated as taken by lines of any class. The scanner's classifier is found by role and well-formedness of a line is a dimension of its own; the product also has an .if with malformed operands and a malformed .endif as letters; `.define NAME value` keeps the value. Known finding: conditionals in macro bodies are decided after the parse.",
+    "C07": " Also decided: completeness (every chunk taken from the image becomes a Data record on every path) and that the writers, seen as a family with their local helpers, create or truncate the file they write. Every write to an output file takes its bytes from the generated records. No adaptor that lets chunks fall out stands between the image and the record loop.",
+    "C08": " A branch of skip on the text of a line through anything but the line parser is treated as taken by lines of any class. The scanner's classifier is found by role and well-formedness of a line is a dimension of its own; the product also has an .if with malformed operands and a malformed .endif as letters; `.define NAME value` keeps the value. Known finding: conditionals in macro bodies are decided after the parse. .ifdef/.ifndef ask whether the name is defined as anything; malformed .else/.elif are letters of the product too.",
     "C09": " Also decided: nested binary expressions keep their parentheses (flattening only on the left), headers of the segments opened while splicing, the first-segment decision compares with the output's last segment, every plain item is handed on once and unchanged. The placeholder rule is decided per character on the substitution function. Known finding: bodies are read after the whole file was parsed.",
-    "C10": " Also decided: the pass branches on the label insert's own result, pass 2's item loop runs for every segment, a label on any kind of line is bound before the rest of the line. Also decided: a name stands for one thing (labels vs constants, second .def, second different .equ). Known findings: .byte operand, .equ evaluated at use.",
+    "C10": " Also decided: the pass branches on the label insert's own result, pass 2's item loop runs for every segment, a label on any kind of line is bound before the rest of the line. Also decided: a name stands for one thing (labels vs constants, second .def, second different .equ). Known findings: .byte operand, .equ evaluated at use. #define of a name in use, the reserved name of the location counter and the operand count of .undef are decided as well.",
     "C11": " Also decided: the nested context carries the location that was opened, the file's own directory is added on every path, the included file inherits the includer's directories, the whole text read from the opened file is what is parsed, no Ok before the parser ran. Also decided: every place is probed for a file (not a directory). Known finding: directories in macro bodies.",
-    "C12": " Also decided: the RAM figure is the extent of the data segment and is handed on unchanged; the .device clause (unknown name, second selection, stored row, operand, exactly one name); every line of every shipped include file is a line of the grammar.",
+    "C12": " Also decided: the RAM figure is the extent of the data segment and is handed on unchanged; the .device clause (unknown name, second selection, stored row, operand, exactly one name); every line of every shipped include file is a line of the grammar. Every shipped part-definition file must name a device of the table.",
     "C14": " Also decided: symbol- and macro-table keys are lower-cased; layering rules — nothing in the line pipeline inspects raw line text except through the grammar's code_part rule, whose shape is checked.",
-    "C16": " Cycles that re-enter with looked-up or produced values need a shared work budget (fan-out rule). The nesting guard is checked against the grammar: every level-building token steps up, on every path through its arm, a variable that an uncapped comparison limits; prefix operators in front of a parenthesis, blanks between them and the precedence levels climbed on a level are accounted for. Cycles that walk looked-up collections or build text for the next round need budgets that grow with their size.",
-    "C18": " The writers are analysed as a family with their local helpers; buffered writers need a checked flush. Also decided: the flash file is written for every successful build, the default paths are built without a text conversion, the two paths are compared before anything is written.",
+    "C16": " Cycles that re-enter with looked-up or produced values need a shared work budget (fan-out rule). The nesting guard is checked against the grammar: every level-building token steps up, on every path through its arm, a variable that an uncapped comparison limits; prefix operators in front of a parenthesis, blanks between them and the precedence levels climbed on a level are accounted for. Cycles that walk looked-up collections or build text for the next round need budgets that grow with their size. Grammar lint: no repetition asks at every character a question that can scan the rest of the line. Where a round builds text, the bytes of the text of all rounds need a budget.",
+    "C18": " The writers are analysed as a family with their local helpers; buffered writers need a checked flush. Also decided: the flash file is written for every successful build, the default paths are built without a text conversion, the two paths are compared before anything is written. The two output paths are compared by the place they lead to.",
 }
 for _pid, _txt in ADDED.items():
     if P.get(_pid, {}).get("built"):
